@@ -9,6 +9,7 @@ pub enum ErrorCode {
     ServerNotInitialized = -32002,
     InvalidRequest = -32600,
     MethodNotFound = -32601,
+    InvalidParams = -32602,
 }
 
 #[derive(Debug, Serialize, Deserialize, PartialEq, Eq)]
